@@ -5,6 +5,17 @@ from ..psi import fmt
 from . import common
 
 
+def layout_in(fb, crate_name, suffix):
+    """(adt, crate) looked up in one crate's own tables (type indices are per crate)"""
+    for c in fb.crates:
+        if c.name != crate_name:
+            continue
+        for k, a in c.adts.items():
+            if k.endswith(suffix) and 'size' in a:
+                return a, c
+    return None, None
+
+
 def layout(fb, suffix):
     for c in fb.crates:
         for k, a in c.adts.items():
